@@ -93,4 +93,12 @@ MUTANTS = [
     ("inf_der_scaled_by_control_interval", SM, "        dt = (self.control_grid[k + 1] - self.control_grid[k])/self.M\n        subst_to += [lookup[e].derivative()*(1/dt) for e in stage._inf_der.values()]", "        dt = (self.control_grid[k + 1] - self.control_grid[k])\n        subst_to += [lookup[e].derivative()*(1/dt) for e in stage._inf_der.values()]", ["C15"]),
     ("inf_uses_first_step_polynomial", SM, "        coeff = stage._method.poly_coeff[k * self.M + l]\n", "        coeff = stage._method.poly_coeff[k * self.M]\n", ["C15"]),
     ("inf_skips_last_substep", MS, "                for c, meta, _ in stage._constraints[\"inf\"]:\n                    self.add_inf_constraints(stage, opti, c, k, l, meta)", "                for c, meta, _ in stage._constraints[\"inf\"]:\n                    if l<2: self.add_inf_constraints(stage, opti, c, k, l, meta)", ["C15"]),
+    # --- C08
+    ("rk_dense_coeff_f2", SM, "        f2 = 4/DT**2*(k3[\"ode\"]-k2[\"ode\"])/6\n        f3 = 4*(k4[\"ode\"]-2*k3[\"ode\"]+k1[\"ode\"])/DT**3/24\n        poly_coeff = hcat([X, f0, f1, f2, f3])", "        f2 = 4/DT**2*(k3[\"ode\"]-k2[\"ode\"])/8\n        f3 = 4*(k4[\"ode\"]-2*k3[\"ode\"]+k1[\"ode\"])/DT**3/24\n        poly_coeff = hcat([X, f0, f1, f2, f3])", ["C08"]),
+    ("sampler_local_time_from_next", ST, "        ti = time[i]\n        tlocal = t-ti", "        ti = time[i]\n        tlocal = t-ti+(t>ti)*1e-3", ["C08"]),
+    ("sampler_control_of_first_interval", ST, "expr_f.call([t, mtimes(coeff,tpower), z, Us[:,k]])", "expr_f.call([t, mtimes(coeff,tpower), z, Us[:,0]])", ["C08"]),
+    ("dc_poly_time_scaling", DC, "S = 1/repmat(hcat([dt**i for i in range(self.degree + 1)]), self.degree + 1, 1)", "S = 1/repmat(hcat([dt**min(i,2) for i in range(self.degree + 1)]), self.degree + 1, 1)", ["C08"]),
+    ("euler_dense_slope", SM, "        poly_coeff = hcat([X, k[\"ode\"]])", "        poly_coeff = hcat([X, 0.5*k[\"ode\"]])", ["C08"]),
+    ("intg_fine_wrong_coeff_block", ST, "coeff = None if stage._method.poly_coeff is None else stage._method.poly_coeff[k * M + l]", "coeff = None if stage._method.poly_coeff is None else stage._method.poly_coeff[k * M + min(l,1)]", ["C08"]),
+    ("sampler_coeff_slice_shift", ST, "        coeff = coeffs[:,(i*s+DM(range(s)).T)]", "        coeff = coeffs[:,(i*s+DM(range(s)).T)] if s!=5 else coeffs[:,(i*s+DM([0,1,2,3,3]).T)]", ["C08"]),
 ]
